@@ -581,3 +581,12 @@ def describe(tier):
         exhaustive=True,
         assumptions=["peaks adjacent to a range limit may or may not be candidates (weakest reading)",
                      "position within a flat-topped peak is not pinned"])
+
+
+_describe_base = describe
+
+
+def describe(tier):     # noqa: F811 - the base description plus what later rounds added to the space
+    d = _describe_base(tier)
+    d["rule"] = d["rule"] + " " + 'Further operations: peak options that scipy refuses (the object must stay as it was: recorded range == model range, no silent return), range updates given to azimuth 1 through the member object (per-member range model). Further roots: every curve over {1,2,3}^7 as a window of a traditional result (three per object; every third group in quick: one in 27), and pairs of live objects on the grids lin / same-ends (PairSystem: each update applied to both objects, either order).'
+    return d
